@@ -179,6 +179,9 @@ impl Stitch {
                                 // A finished band says how many hunks it has: if some are gone, the
                                 // entries in them will be missing from this listing.
                                 if let Ok(info) = band.get_info().await {
+                                    if !info.is_closed {
+                                        index_hunks = index_hunks.in_unfinished_band();
+                                    }
                                     let present = index_hunks.hunk_count();
                                     if info.index_hunk_count.is_some_and(|n| n != present as u64) {
                                         self.monitor.error(Error::InvalidMetadata {
